@@ -216,25 +216,26 @@ ND.__mul__ = _nd_mul
 
 # ------------------------------------------------------------------ C01: chunked == full
 
+def si_grid(tier):
+    """(S, M, D, style, translation) of hand-built instances that satisfy the property's precondition:
+    frame shift shorter than the longest filter's one-sided support -- causal: S < M - translation (support measured
+    from sample 0), centered: S < M - M//2 (measured from the support's centre); frame_length = M+S-1 <= D."""
+    g = [(2, 3, 6, 'causal', 0), (2, 4, 8, 'causal', 1), (2, 5, 8, 'centered', None), (1, 3, 6, 'centered', None)]
+    if tier == 'thorough':
+        g += [(3, 5, 9, 'causal', 1), (2, 4, 6, 'causal', 1), (3, 7, 12, 'centered', None), (2, 6, 9, 'centered', None)]
+    for (S, M, D, style, tr) in g:
+        assert M + S - 1 <= D and (S < M - tr if style == 'causal' else S < M - M // 2)
+    return g
+
+
 def c01_configs(tier):
     out = []
-    if tier == 'quick':
-        grid = [(2, 3, 6), (2, 3, 8), (2, 4, 8)]
-        K, NMAX = 2, 9
-    else:
-        grid = [(2, 2, 4), (2, 3, 6), (2, 3, 8), (2, 4, 8), (3, 4, 8), (3, 4, 9), (2, 4, 6)]
-        K, NMAX = 2, 12
-    for (S, M, D) in grid:
-        for style in ('causal', 'centered'):
-            # property precondition: frame shift shorter than the one-sided support
-            # (causal: measured from sample 0 -> S < M; centered: from the centre -> S < M - M//2)
-            onesided = M if style == 'causal' else M - M // 2
-            if not S < onesided and not (style == 'centered' and S <= M // 2):
-                continue
-            out.append(dict(kind='si_hist', name='si_hist S%d M%d D%d %s K%d' % (S, M, D, style, K), S=S, M=M, D=D,
-                            style=style, K=K, NMAX=NMAX, power=True, log=False))
+    K, NMAX = (2, 9) if tier == 'quick' else (2, 12)
+    for (S, M, D, style, tr) in si_grid(tier):
+        out.append(dict(kind='si_hist', name='si_hist S%d M%d D%d %s K%d' % (S, M, D, style, K), S=S, M=M, D=D, style=style, trans=tr,
+                        K=K, NMAX=NMAX, power=True, log=False))
     if tier == 'thorough':
-        out.append(dict(kind='si_hist', name='si_hist S2 M3 D8 centered K3', S=2, M=3, D=8, style='centered', K=3,
+        out.append(dict(kind='si_hist', name='si_hist S2 M5 D8 centered K3 mag+log', S=2, M=5, D=8, style='centered', trans=None, K=3,
                         NMAX=8, power=False, log=True))
     return out
 
@@ -258,7 +259,7 @@ def run_c01(cfg):
         c.inputs = [N] + cs
         c.assume(N >= 0, N <= NMAX, *[ci >= 0 for ci in cs])
         c.assume(z3.Sum(cs) == N)
-        o = mk(ns, S, M, D, style, ncoef, power, log)
+        o = mk(ns, S, M, D, style, ncoef, power, log, trans=cfg.get('trans'))
         outs = []
         off = z3.IntVal(0)
         try:
@@ -269,7 +270,7 @@ def run_c01(cfg):
         except Exception as e:
             symex.guard(e)
             return ('exc', 'streaming %s: %s' % (type(e).__name__, e))
-        o2 = mk(ns, S, M, D, style, ncoef, power, log)
+        o2 = mk(ns, S, M, D, style, ncoef, power, log, trans=cfg.get('trans'))
         try:
             full = o2.compute_full(sig(z3.IntVal(0), conc(SInt(N))))
         except Exception as e:
